@@ -379,5 +379,5 @@ pub fn dump_snapshot() {
         let k = ErrorKind::from(*code);
         m.insert(name.to_string(), serde_json::json!([code, String::from_utf8_lossy(k.sqlstate())]));
     }
-    println!("{}", serde_json::to_string_pretty(&serde_json::Value::Object(m)).unwrap());
+    crate::out!("{}", serde_json::to_string_pretty(&serde_json::Value::Object(m)).unwrap());
 }
